@@ -45,6 +45,11 @@ shared! {
         fn mk(_: i128) -> fn() -> u32 { fn zero() -> u32 { 0 } zero }
         fn rd(&self) -> i128 { (*self)() as i128 }
     }
+    /// a u32 behind a reference (elements that borrow from a temporary): never made by `e`
+    impl<'a> El for &'a u32 {
+        fn mk(_: i128) -> &'a u32 { &0 }
+        fn rd(&self) -> i128 { **self as i128 }
+    }
     /// the i-th element expression: a side effect, then a value
     pub fn e<T: El>(i: i128) -> T { lg(i); T::mk(i) }
 
